@@ -5,6 +5,7 @@ import importlib
 _MODULES = {
     'kernel': 'dst.kernel',
     'steps': 'dst.steps',
+    'wiring': 'dst.wiring',
 }
 
 # property -> list of (profile, share of the run budget)
@@ -14,6 +15,10 @@ PROPERTY_PROFILES = {
     'C03': [('kernel', 1.0)],
     'C04': [('kernel', 0.7), ('steps', 0.3)],
     'C05': [('steps', 1.0)],
+    'C06': [('wiring', 1.0)],
+    'C07': [('wiring', 1.0)],
+    'C08': [('wiring', 1.0)],
+    'C15': [('wiring', 1.0)],
     'C12': [('kernel', 0.8), ('steps', 0.2)],
 }
 
